@@ -570,6 +570,23 @@ def values_equal(I, x, y):
             if r is False:
                 return False
         return r
+    if isinstance(x, MapVal) and isinstance(y, MapVal):
+        # maps (keys pairwise different inside each map): equal iff same size and every entry of x has an
+        # entry of y with an equal key and an equal value
+        if len(x.entries) != len(y.entries):
+            return False
+        r = True
+        for e in x.entries:
+            some = False
+            for g in y.entries:
+                both = sym_and(values_equal(I, e.f[0], g.f[0]), values_equal(I, e.f[1], g.f[1]) if len(e.f) > 1 else True)
+                some = sym_or(some, both)
+                if some is True:
+                    break
+            r = sym_and(r, some)
+            if r is False:
+                return False
+        return r
     if isinstance(x, (int, bool)) or is_sym(x):
         return cmp_scalar('Eq', x, y)
     raise Unmodelled('equality of %r and %r' % (x, y))
